@@ -62,7 +62,7 @@ Accepts(t, x) ==
 
 DeadExp == [alive |-> FALSE, sh |-> 0, f |-> 0, pt |-> <<>>, wt |-> <<>>, seb |-> <<>>,
             retk |-> 0, retv |-> 0, lo |-> 0, hi |-> 0, n |-> 0, rep |-> FALSE,
-            linked |-> FALSE, qs |-> <<>>, flo |-> 0, fhi |-> 0, allq |-> <<>>]
+            linked |-> FALSE, qs |-> <<>>, flo |-> 0, fhi |-> 0, allq |-> <<>>, nest |-> <<-1, 0, 0, 0>>]
 DeadMon == [alive |-> FALSE, obj |-> 0, died |-> FALSE, n |-> 0, qs |-> <<>>, nq |-> 0]
 
 InitSt ==
@@ -117,7 +117,8 @@ Obs0 == [skip |-> 0, acc |-> 1, ret |-> 0, thr |-> "", thrv |-> 0,
          oks |-> <<>>, trs |-> <<>>, trck |-> TRUE, \* trck: trace records are specified for this op
          sr |-> <<>>, probe |-> <<>>, hd |-> 0,   \* hd: the expectation that handled the call
          q |-> <<-1, -1>>,                        \* result of an explicit query op
-         cargs |-> <<>>, cm |-> 0, cf |-> 0]     \* the call, for the clause-log rules
+         cargs |-> <<>>, cm |-> 0, cf |-> 0,     \* the call, for the clause-log rules
+         nargs |-> <<>>, nm |-> 0, nf |-> 0]     \* the nested call a side effect issued (if any)
 Rp0 == [sev |-> 1, kind |-> "", ent |-> 0, fn |-> 0, args |-> <<>>, lo |-> 0, n |-> 0,
         lk |-> 0, lst |-> <<>>, det |-> <<>>, entset |-> {}, cnt |-> 1, cntmax |-> 1]
 Skip(st) == [st |-> st, obs |-> [Obs0 EXCEPT !.skip = 1]]
@@ -144,10 +145,36 @@ NoMatch(st, m, f, args) ==
               ELSE [st EXCEPT !.exp = [s \in Slots |-> IF s \in Range(A) THEN [st.exp[s] EXCEPT !.rep = TRUE] ELSE st.exp[s]]]
   IN  [st |-> st1, obs |-> [Obs0 EXCEPT !.acc = 0, !.reps = <<r>>, !.trck = FALSE, !.cargs = args, !.cm = m, !.cf = f]]
 
-FirstThrow(seb) ==
-  LET ks == {k \in 1..Len(seb) : seb[k] \in {1, 2}} IN IF ks = {} THEN 0 ELSE Min(ks)
+\* Side effects run in declaration order after the call was counted and OK-reported.  Behaviours of the
+\* driver's effects: 0 nothing, 1 throws std::runtime_error, 2 throws int, 3 calls another mock function
+\* (the lock is recursive; nesting depth is limited to one by the driver).  A nested call is a complete call
+\* of its own: matched, counted, reported and traced (its trace record comes first); if it is rejected its
+\* fatal report propagates out of the outer call, which has nevertheless been counted.
+RECURSIVE CallStepD(_, _, _, _, _)
 
-Accept(st, m, f, args, c) ==
+RunEffects(st1, x, c, depth) ==
+  LET RECURSIVE Go(_, _)
+      Go(k, r) ==
+        IF k > Len(x.seb) \/ r.stop # "" THEN r
+        ELSE LET r1 == [r EXCEPT !.sr = Append(@, <<3, c, k, 0>>)]
+                 b  == x.seb[k]
+             IN  IF b = 1 THEN [r1 EXCEPT !.stop = "throw", !.thr = "se", !.thrv = c * 10 + k]
+                 ELSE IF b = 2 THEN [r1 EXCEPT !.stop = "throw", !.thr = "int", !.thrv = 7]
+                 ELSE IF b = 3 /\ depth = 0 /\ x.nest[1] \in Mocks /\ x.nest[2] \in Fns /\ r1.st.malive[x.nest[1]]
+                 THEN LET nargs == IF x.nest[2] = 3 THEN <<x.nest[3], x.nest[4]>> ELSE <<x.nest[3]>>
+                          inner == CallStepD(r1.st, x.nest[1], x.nest[2], nargs, 1)
+                          r2 == [r1 EXCEPT !.st = inner.st, !.sr = @ \o inner.obs.sr, !.oks = @ \o inner.obs.oks,
+                                           !.trs = @ \o (IF inner.obs.trck THEN inner.obs.trs ELSE <<>>),
+                                           !.trck = (@ /\ inner.obs.trck),
+                                           !.nargs = nargs, !.nm = x.nest[1], !.nf = x.nest[2]]
+                      IN  IF inner.obs.acc = 0 THEN Go(k + 1, [r2 EXCEPT !.stop = "fatal", !.reps = inner.obs.reps])
+                          ELSE IF inner.obs.thr # "" THEN Go(k + 1, [r2 EXCEPT !.stop = "throw", !.thr = inner.obs.thr, !.thrv = inner.obs.thrv])
+                          ELSE Go(k + 1, r2)
+                 ELSE Go(k + 1, r1)
+  IN  Go(1, [st |-> st1, sr |-> <<>>, oks |-> <<>>, trs |-> <<>>, trck |-> TRUE, stop |-> "", thr |-> "", thrv |-> 0, reps |-> <<>>,
+             nargs |-> <<>>, nm |-> 0, nf |-> 0])
+
+AcceptD(st, m, f, args, c, depth) ==
   LET x     == st.exp[c]
       n1    == x.n + 1
       retire == (~AsIs_D1) \/ n1 >= x.lo
@@ -157,26 +184,31 @@ Accept(st, m, f, args, c) ==
       act2  == IF satur THEN [st.act EXCEPT ![m][f] = RemoveH(@, c)] ELSE st.act
       sat2  == IF satur THEN [st.sat EXCEPT ![m][f] = Append(@, c)] ELSE st.sat
       st1   == [st EXCEPT !.exp[c].n = n1, !.pend = pend2, !.act = act2, !.sat = sat2]
-      ft    == FirstThrow(x.seb)
-      nrun  == IF ft = 0 THEN Len(x.seb) ELSE ft
-      srS   == [k \in 1..nrun |-> <<3, c, k, 0>>]
-      sr    == IF ft = 0 /\ x.retk # 0 THEN Append(srS, <<4, c, 0, 0>>) ELSE srS
-      thr   == IF ft # 0 THEN (IF x.seb[ft] = 1 THEN "se" ELSE "int")
+      tr    == st.trk                                      \* the tracer is chosen when the call starts
+      e     == RunEffects(st1, x, c, depth)
+      thr   == IF e.stop = "throw" THEN e.thr
+               ELSE IF e.stop = "fatal" THEN ""
                ELSE IF x.retk = 2 THEN "th" ELSE IF x.retk = 3 THEN "int" ELSE ""
-      thrv  == IF ft # 0 THEN (IF x.seb[ft] = 1 THEN c * 10 + ft ELSE 7)
+      thrv  == IF e.stop = "throw" THEN e.thrv
+               ELSE IF e.stop = "fatal" THEN 0
                ELSE IF x.retk = 2 THEN c ELSE IF x.retk = 3 THEN 40 + c ELSE 0
-      ret   == IF thr = "" /\ x.retk = 1 THEN x.retv ELSE 0
-      tres  == IF thr = "" THEN (IF x.retk = 1 THEN "val" ELSE "void")
+      sr    == IF e.stop = "" /\ x.retk # 0 THEN Append(e.sr, <<4, c, 0, 0>>) ELSE e.sr
+      ret   == IF e.stop = "" /\ thr = "" /\ x.retk = 1 THEN x.retv ELSE 0
+      tres  == IF e.stop = "fatal" THEN "unk"
+               ELSE IF thr = "" THEN (IF x.retk = 1 THEN "val" ELSE "void")
                ELSE IF thr = "int" THEN "unk" ELSE thr
-      tresv == IF thr = "" THEN ret ELSE IF thr = "int" THEN 0 ELSE thrv
-      trs   == IF st.trk = <<>> THEN <<>>
-               ELSE <<[t |-> st.trk[Len(st.trk)], ent |-> c, sh |-> x.sh, args |-> args, res |-> tres, resv |-> tresv]>>
+      tresv == IF e.stop = "fatal" THEN 0 ELSE IF thr = "" THEN ret ELSE IF thr = "int" THEN 0 ELSE thrv
+      own   == IF tr = <<>> THEN <<>>
+               ELSE <<[t |-> tr[Len(tr)], ent |-> c, sh |-> x.sh, args |-> args, res |-> tres, resv |-> tresv]>>
       okent == IF AsIs_D4 THEN st.act[m][f][1] ELSE c
-  IN  [st |-> st1,
-       obs |-> [Obs0 EXCEPT !.ret = ret, !.thr = thr, !.thrv = thrv, !.sr = sr, !.trs = trs, !.hd = c,
-                            !.oks = <<[r |-> st.okrep, ent |-> okent]>>, !.cargs = args, !.cm = m, !.cf = f]]
+  IN  [st |-> e.st,
+       obs |-> [Obs0 EXCEPT !.acc = IF e.stop = "fatal" THEN 0 ELSE 1,
+                            !.ret = ret, !.thr = thr, !.thrv = thrv, !.sr = sr, !.trs = e.trs \o own, !.trck = e.trck, !.hd = c,
+                            !.reps = e.reps,
+                            !.oks = <<[r |-> st.okrep, ent |-> okent]>> \o e.oks, !.cargs = args, !.cm = m, !.cf = f,
+                            !.nargs = e.nargs, !.nm = e.nm, !.nf = e.nf]]
 
-CallStep(st, m, f, args) ==
+CallStepD(st, m, f, args, depth) ==
   LET c == Find(st, m, f, args)
   IN  IF c = 0 THEN NoMatch(st, m, f, args)
       ELSE LET x == st.exp[c]
@@ -190,7 +222,10 @@ CallStep(st, m, f, args) ==
                THEN \* all matching candidates are ineligible; which of them is blamed is not specified
                     rej([Rp0 EXCEPT !.sev = 0, !.kind = "seqmismatch",
                                     !.entset = {e \in Range(st.act[m][f]) : Matches(st, e, args)}], st)
-               ELSE Accept(st, m, f, args, c)
+               ELSE AcceptD(st, m, f, args, c, depth)
+
+CallStep(st, m, f, args) == CallStepD(st, m, f, args, 0)
+Accept(st, m, f, args, c) == AcceptD(st, m, f, args, c, 0)
 
 (* ---- expectation life cycle ---- *)
 Unfulfilled(x) == x.linked /\ ~x.rep /\ x.n < x.lo
@@ -219,7 +254,8 @@ ExpectStep(st, a) ==
           ELSE [st |-> [st EXCEPT
                    !.exp[s] = [alive |-> TRUE, sh |-> shp, f |-> tab.fn, pt |-> pt, wt |-> wt, seb |-> seb,
                                retk |-> tab.retk, retv |-> a[17], lo |-> lo, hi |-> hi, n |-> 0,
-                               rep |-> FALSE, linked |-> TRUE, qs |-> qs, flo |-> lo, fhi |-> hi, allq |-> qs],
+                               rep |-> FALSE, linked |-> TRUE, qs |-> qs, flo |-> lo, fhi |-> hi, allq |-> qs,
+                               nest |-> IF Len(a) >= 25 THEN <<a[22], a[23], a[24], a[25]>> ELSE <<-1, 0, 0, 0>>],
                    !.act[m][tab.fn] = <<s>> \o @,
                    !.pend = [q \in Seqs |-> IF q \in Range(qs) THEN Append(st.pend[q], s) ELSE st.pend[q]]],
                 obs |-> Obs0]
